@@ -35,6 +35,8 @@ def main():
                               {"shard": spec})
             else:
                 raise
+    for v in res.violations:
+        v["shard_spec"] = spec  # lets --replay re-run exactly the shard that produced the witness
     with open(out_path + ".tmp", "w") as f:
         json.dump(res.as_dict(), f, default=str)
     import os
